@@ -1137,8 +1137,8 @@ class MultiTestResult(TestResult):
         super().stopTest(test)
         return self._dispatch("stopTest", test)
 
-    def addError(self, test, error=None, details=None):
-        return self._dispatch("addError", test, error, details=details)
+    def addError(self, test, err=None, details=None):
+        return self._dispatch("addError", test, err, details=details)
 
     def addExpectedFailure(self, test, err=None, details=None):
         return self._dispatch("addExpectedFailure", test, err, details=details)
